@@ -298,6 +298,20 @@ Next == \/ Open \/ Close \/ Crash \/ EvictAll \/ Rotate
         \/ CompactClose \/ CompactRegister \/ CompactUnlist \/ CompactDelFile \/ CompactEnd
 Spec == Init /\ [][Next]_vars
 
+\* ---- liveness of the workers (checked on a configuration without state constraint: no compaction, no crash)
+Fairness == /\ SF_vars(FlushStart("bg"))      \* (strong: the model has one flusher record, a foreground Flush in progress disables the background start)
+            /\ WF_vars(FlushFinish) /\ WF_vars(FlushNextId) /\ WF_vars(FlushCreate) /\ WF_vars(FlushWrite)
+            /\ WF_vars(FlushClose) /\ WF_vars(FlushRegister) /\ WF_vars(FlushDrop)
+            /\ WF_vars(CompactStart) /\ WF_vars(CompactLoad) /\ WF_vars(CompactNextId) /\ WF_vars(CompactCreate) /\ WF_vars(CompactWrite)
+            /\ WF_vars(CompactClose) /\ WF_vars(CompactRegister) /\ WF_vars(CompactUnlist) /\ WF_vars(CompactDelFile) /\ WF_vars(CompactEnd)
+            /\ WF_vars(SearchRet) /\ \A id \in 1..MaxSeg : WF_vars(SearchSeg(id))
+LiveSpec == Spec /\ Fairness
+\* a requested background flush is eventually taken up, a started flusher eventually finishes, a started search eventually returns
+\* (as long as the store stays open: Close takes the flusher over)
+FlushRequestServed == (flushReq /\ st = "open") ~> (~flushReq \/ st # "open")
+FlusherTerminates  == (fl.pc # "idle") ~> (fl.pc = "idle")
+SearchTerminates   == (se.pc # "idle") ~> (se.pc = "idle")
+
 \* ---- properties (evaluated when a search has collected everything)
 Done == se.pc = "segs" /\ se.todo = {}
 AckedVisible    == Done => expect \subseteq se.res                 \* C08 / C09 / C10
